@@ -117,7 +117,7 @@ def families(tier):
     k3 = [["k == 3", "i1 <= 0"], ["k == 3", "i1 == 1"], ["k == 3", "i1 == 2"], ["k == 3", "i1 == 3"], ["k == 3", "i1 >= 4"]]
     k2 = [["k == 2", "i1 <= 1"], ["k == 2", "i1 == 2 or i1 == 3"], ["k == 2", "i1 >= 4"]]
     if not thorough:
-        pre += ["v == %d or v == 1 or v == 3" % NOP, "e == 0 or k <= 2"]
+        pre += ["v == %d or v == 1 or v == 3" % NOP, "e == 0 or k <= 2", "e == 0 or v == %d" % NOP]
         vs = (1, 3, NOP)
         shapes = [["e == 0", "k <= 1"], ["e == 0", "k == 2"]] + [["e == 0"] + q for q in k3] + [["e == 1", "k <= 1"]] + [["e == 1"] + q for q in k2]
     else:
@@ -127,6 +127,8 @@ def families(tier):
     parts = []
     for v in vs:
         for q in shapes:
+            if not thorough and v != NOP and "e == 1" in q:
+                continue
             if VAR[v] in ("rel", "cancel", "fail") and "e == 1" in q:
                 parts += [["v == %d" % v, a] + q for a in ("av <= 2", "av == 3", "av >= 4")]
             else:
